@@ -194,15 +194,20 @@ def _optimise_operator(op):
 
             same_leaf[key] = [res_op, FieldAdapter(res_op.target, next(prepend_id) + str(id(res_op)))]
 
+            # the same _OpChain object may sit at several leaf positions: cut it only once
+            truncated = set()
             for leaf in id_leaf[key]:
                 parent = nodes[leaf[0]][0]
                 edited.add(id_dic[id(parent)][0])
                 attr = left_parser(leaf[1])
                 leaf_op = getattr(parent, attr)
                 if isinstance(leaf_op, _OpChain):
+                    if id(leaf_op) in truncated:
+                        continue
                     if first_difference == len(leaf_op._ops):
                         setattr(parent, attr, same_leaf[key][1])
                     else:
+                        truncated.add(id(leaf_op))
                         leaf_op._ops = leaf_op._ops[:-first_difference] + (same_leaf[key][1],)
                 else:
                     setattr(parent, attr, same_leaf[key][1])
